@@ -219,7 +219,14 @@ def gen_api_history(rng, length, stock=False, highlight_max=False):
         if r < typing:
             for _ in range(rng.choice([1, 2, 3, 6])):
                 ops.append(key(ord(rng.choice(LETTERS if rng.random() < 0.9 else "xuv"))))
-        elif r < typing + 0.2:
+        elif r < typing + 0.08:
+            # a burst of menu navigation: reaches later pages / highlights beyond the first candidate
+            nav = rng.choice([["key %d 0" % XK["Next"]], ["key %d 0" % XK["Down"]], ["page 0"], ["hl %d" % rng.randrange(0, 14)],
+                              ["key %d 0" % XK["Next"], "key %d 0" % XK["Down"]], ["page 0", "key %d 0" % XK["Up"]],
+                              ["key %d 0" % XK["Prior"]], ["page 1"], ["hlp %d" % rng.randrange(0, 6)]])
+            for _ in range(rng.choice([1, 2, 3])):
+                ops.extend(nav)
+        elif r < typing + 0.25:
             code, mask = rand_key(rng)
             if stock and ((code, mask) in STOCK_EXCLUDED_KEYS or code in STOCK_EXCLUDED_CODES):
                 continue
